@@ -73,6 +73,10 @@ CHECKS['C20'] = dict(level='exploration', design='6/C20',
     technique='property-based testing (Hypothesis): invariants (targets unchanged, one decoy per target, permutation, fixed positions), exact model for the reverse method, reproducibility under a perturbed global RNG, metamorphic relation under input permutation, output-order invariant',
     text='Generated unique-sequence targets (incl. low-complexity peptides) in generated record orders x method x enzyme x fixed-position options x seed x decoy string x output order: all clauses of the statement are checked on the written FASTA.',
     note='Strict domain: no enzyme or lysn / asp-n / ntcb / thermolysin; with C-terminal cutters (thorough) a moved recognised residue is tolerated only as open finding C20-enzyme-site-offset (pinned by a stable test, not repairable).')
+CHECKS['C14'] = dict(level='exploration', design='6/C14',
+    technique='property-based testing (Hypothesis): semantic round trip - the emitted (POS, REF, ALT) applied to the gene sequence must equal the gene re-extracted from the chromosome carrying the generated genomic event (independent model of coordinates and strands); exact expected record set for parseREDItools from re-implemented threshold predicates',
+    text='Generated genomic events (SNV, deletions, insertions in three VEP conventions, substitutions of >= 3 nt) at positions over the whole transcript span incl. its ends, exon edges and introns, on both strands, are written as VEP rows and parsed; REDItools rows with counts around every threshold are parsed; outputs are compared with the model.',
+    note='Events within 2 nt of the transcript ends may be rejected or converted (if converted, correctly); events reaching beyond the transcript must be rejected. VEP alleles are taken to be on the forward genomic strand.')
 NOT_YET = {}
 
 def main():
